@@ -50,5 +50,11 @@ if [ "$ID" = C13 ] || [ "$ID" = C09 ]; then
     echo "HARNESS-ERROR: wrapper test does not build:"; head -20 "$W/build.err"; exit 2
   fi
   export VERIF_FUZZWRAP_BIN="$W/fuzzwrap.test"
+  # the same package built with the newer toolchain of the image, if it is there: Check inside a testing/synctest bubble (Go 1.25+)
+  if [ "$ID" = C09 ] && [ -x /opt/veriftools/go1.26.8/bin/go ]; then
+    if PATH=/opt/veriftools/go1.26.8/bin:$PATH go test $MODFLAG -c -vet=off -tags verif -overlay "$W/overlay.json" -o "$W/synctest.test" ./harness/fuzzwrap 2>"$W/build126.err"; then
+      export VERIF_SYNCTEST_BIN="$W/synctest.test"
+    fi
+  fi
 fi
 "$W/vcheck" run "$ID" --tier "$TIER" --seed "$SEED" --instr "$INSTR"
